@@ -124,6 +124,14 @@ CLAIMED = {
         note="Text-based sub-check (c) uses concrete numeral pools; (e) is solver-driven enumeration of n, said plainly.",
         tech="path-forking symbolic execution of util.* with z3 payloads + z3 equivalence for make_term (bounded)",
         ref="DESIGN.md section 4 C16"),
+    "C18": dict(
+        text="Every binary tree shape with <= 4 levels (thorough: plus 5-level shapes up to 9 nodes, expression-node trees): "
+             "measure() runs on the real nodes, the unit multipliers are positive real solver variables, and every tidy-tree "
+             "invariant (y = depth*uy, child sides, centring, level order and separation >= ux, bounds = bounding box, "
+             "repeatability over three layouts, mirror symmetry) is a z3 validity query over all ux, uy.",
+        note="Shape bits are solver variables explored exhaustively; offsets inside measure() are concrete halves.",
+        tech="bounded exhaustive shapes via solver-enumerated bits + z3 validity over symbolic unit multipliers",
+        ref="DESIGN.md section 4 C18"),
 }
 
 PENDING = {}
